@@ -1,1 +1,33 @@
-fn main() {}
+//! Helper process for C14/C15/C19: opens the database (on disk under the
+//! XDG_DATA_HOME given by the environment, or in memory) and answers the
+//! queries of a file, one JSON line per query on stdout.
+//!
+//! dbprobe open|mem <queries-file>
+use anything::{parse, query, Db, Description, Options};
+use std::io::Write;
+
+fn main() {
+    let args: Vec<String> = std::env::args().collect();
+    if args.len() < 3 {
+        eprintln!("usage: dbprobe open|mem <queries-file>");
+        std::process::exit(2);
+    }
+    let db = match args[1].as_str() {
+        "open" => Db::open(),
+        _ => Db::in_memory(),
+    };
+    let db = match db {
+        Ok(db) => db,
+        Err(e) => {
+            println!("OPEN-FAILED {:#}", e);
+            std::process::exit(3);
+        }
+    };
+    let text = std::fs::read_to_string(&args[2]).expect("queries file");
+    let out = std::io::stdout();
+    let mut out = out.lock();
+    for q in text.lines() {
+        writeln!(out, "{}", verif_harness::probe::answer(&db, q)).unwrap();
+    }
+    let _ = (parse, query, Options::default(), |d: Description| d);
+}
